@@ -574,6 +574,13 @@ func (h *handler1) handleConnect(ctx context.Context, snConnect *snPkts1.Connect
 }
 
 func (h *handler1) handleSubscribe(ctx context.Context, snSubscribe *snPkts1.Subscribe) error {
+	// QoS 3 is not a valid MQTT subscription QoS.
+	if snSubscribe.QOS > 2 {
+		snSuback := snPkts1.NewSuback(0, snPkts1.RC_NOT_SUPPORTED, 0)
+		snSuback.CopyMessageID(snSubscribe)
+		return h.snSend(snSuback)
+	}
+
 	var topic string
 	// From MQTT-SN specification v. 1.2, chapter 5.4.16 SUBACK:
 	// 	TopicID [...] [is] not relevant in case of subscriptions to a short topic name or to a topic name which
@@ -613,6 +620,9 @@ func (h *handler1) handleSubscribe(ctx context.Context, snSubscribe *snPkts1.Sub
 		topic = snPkts.DecodeShortTopic(snSubscribe.TopicID)
 		// topicID remains zero.
 	}
+	if topic == "" {
+		return fmt.Errorf("empty topic filter for topic id %d", snSubscribe.TopicID)
+	}
 
 	msgID := snSubscribe.MessageID()
 	transaction := newSubscribeTransaction(ctx, h, msgID, topicID)
@@ -639,6 +649,9 @@ func (h *handler1) handleUnsubscribe(snUnsubscribe *snPkts1.Unsubscribe) error {
 		}
 	case snPkts1.TIT_SHORT:
 		topic = snPkts.DecodeShortTopic(snUnsubscribe.TopicID)
+	}
+	if topic == "" {
+		return fmt.Errorf("empty topic filter for topic id %d", snUnsubscribe.TopicID)
 	}
 
 	mqUnsubscribe := mqPkts.NewControlPacket(mqPkts.Unsubscribe).(*mqPkts.UnsubscribePacket)
@@ -732,6 +745,12 @@ func (h *handler1) handleMqttSn(ctx context.Context, pkt snPkts.Packet) error {
 
 	// Client REGISTER transaction.
 	case *snPkts1.Register:
+		// Topic name with wildcards cannot be published to => cannot be registered.
+		if hasWildcard(snPkt.TopicName) {
+			m2 := snPkts1.NewRegack(0, snPkts1.RC_NOT_SUPPORTED)
+			m2.CopyMessageID(snPkt)
+			return h.snSend(m2)
+		}
 		returnCode := snPkts1.RC_ACCEPTED
 		topicID, err := h.registerTopic(snPkt.TopicName)
 		if err != nil {
